@@ -758,61 +758,7 @@ func (s *State) mutate(t *rapid.T, label string) string {
 		renumber(l)
 		return "swap"
 	case 12: // crypto changes
-		for _, cn := range sortedKeys(s.Crypto) {
-			l := s.Crypto[cn]
-			switch rapid.IntRange(0, 8).Draw(t, label+"cop") {
-			case 7:
-				// the device keeps the first and the last entry, numbered 1
-				// and 3: the entries the target adds meet a gap followed by
-				// an occupied number
-				if len(l) < 3 {
-					return "noop"
-				}
-				l[len(l)-1].Seq = 3
-				s.Crypto[cn] = []*CryptoEntry{l[0], l[len(l)-1]}
-				return "cryptoSparseKept"
-			case 8:
-				// as before, but number 3 is held by an entry of a peer the
-				// target does not have
-				if len(l) < 3 {
-					return "noop"
-				}
-				s.Crypto[cn] = []*CryptoEntry{l[0], {Seq: 3, Kind: "ipsec-isakmp", Peers: []string{"10.9.9.77"}}}
-				return "cryptoSparseForeign"
-			case 4, 5:
-				// entries removed on the device (the target adds them), the
-				// numbering of the rest possibly keeps a gap
-				if len(l) < 2 {
-					return "noop"
-				}
-				k := rapid.IntRange(1, len(l)-1).Draw(t, label+"ckeep")
-				perm := rapid.Permutation(l).Draw(t, label+"cperm")
-				keep := append([]*CryptoEntry(nil), perm[:k]...)
-				sort.Slice(keep, func(i, j int) bool { return keep[i].Seq < keep[j].Seq })
-				s.Crypto[cn] = keep
-				return "cryptoEntriesRemoved"
-			case 6:
-				// spread the numbering: 1,2,3 -> 1,3,5
-				for i, e := range l {
-					e.Seq = 2*i + 1
-				}
-				return "cryptoGap"
-			case 0:
-				l[0].Peers = []string{"10.9.9.77"}
-				return "cryptoPeer"
-			case 1:
-				l[0].Seq += 5
-				return "cryptoSeq"
-			case 2:
-				l[0].FilterIn, l[0].FilterOut = l[0].FilterOut, l[0].FilterIn
-				return "cryptoFilterDir"
-			case 3:
-				if l[0].FilterIn != "" {
-					l[0].FilterIn = ""
-					return "cryptoFilterOff"
-				}
-			}
-		}
+		return s.mutateCrypto(t, label)
 	case 13:
 		// several changes in one ACL: shuffle a block
 		n := pick()
@@ -824,6 +770,67 @@ func (s *State) mutate(t *rapid.T, label string) string {
 		s.ACLs[n] = perm
 		renumber(perm)
 		return "shuffle"
+	}
+	return "noop"
+}
+
+// mutateCrypto changes the crypto map of the device (entries removed,
+// renumbered, peers and filters changed).
+func (s *State) mutateCrypto(t *rapid.T, label string) string {
+	for _, cn := range sortedKeys(s.Crypto) {
+		l := s.Crypto[cn]
+		switch rapid.IntRange(0, 8).Draw(t, label+"cop") {
+		case 7:
+			// the device keeps the first and the last entry, numbered 1
+			// and 3: the entries the target adds meet a gap followed by
+			// an occupied number
+			if len(l) < 3 {
+				return "noop"
+			}
+			l[len(l)-1].Seq = 3
+			s.Crypto[cn] = []*CryptoEntry{l[0], l[len(l)-1]}
+			return "cryptoSparseKept"
+		case 8:
+			// as before, but number 3 is held by an entry of a peer the
+			// target does not have
+			if len(l) < 3 {
+				return "noop"
+			}
+			s.Crypto[cn] = []*CryptoEntry{l[0], {Seq: 3, Kind: "ipsec-isakmp", Peers: []string{"10.9.9.77"}}}
+			return "cryptoSparseForeign"
+		case 4, 5:
+			// entries removed on the device (the target adds them), the
+			// numbering of the rest possibly keeps a gap
+			if len(l) < 2 {
+				return "noop"
+			}
+			k := rapid.IntRange(1, len(l)-1).Draw(t, label+"ckeep")
+			perm := rapid.Permutation(l).Draw(t, label+"cperm")
+			keep := append([]*CryptoEntry(nil), perm[:k]...)
+			sort.Slice(keep, func(i, j int) bool { return keep[i].Seq < keep[j].Seq })
+			s.Crypto[cn] = keep
+			return "cryptoEntriesRemoved"
+		case 6:
+			// spread the numbering: 1,2,3 -> 1,3,5
+			for i, e := range l {
+				e.Seq = 2*i + 1
+			}
+			return "cryptoGap"
+		case 0:
+			l[0].Peers = []string{"10.9.9.77"}
+			return "cryptoPeer"
+		case 1:
+			l[0].Seq += 5
+			return "cryptoSeq"
+		case 2:
+			l[0].FilterIn, l[0].FilterOut = l[0].FilterOut, l[0].FilterIn
+			return "cryptoFilterDir"
+		case 3:
+			if l[0].FilterIn != "" {
+				l[0].FilterIn = ""
+				return "cryptoFilterOff"
+			}
+		}
 	}
 	return "noop"
 }
@@ -973,6 +980,14 @@ func GenPair(t *rapid.T, o GenOpts) *Pair {
 	n := rapid.IntRange(0, 6).Draw(t, "nOps")
 	for i := 0; i < n; i++ {
 		p.Ops = append(p.Ops, p.A.mutate(t, fmt.Sprintf("op%d", i)))
+	}
+	// Changes of a crypto map come in combinations (entries numbered
+	// differently and a filter changed, ...): two more of them for half of
+	// the devices that have a crypto map.
+	if len(p.A.Crypto) > 0 && rapid.Bool().Draw(t, "cryptoCombo") {
+		for i := 0; i < 2; i++ {
+			p.Ops = append(p.Ops, p.A.mutateCrypto(t, fmt.Sprintf("cc%d", i)))
+		}
 	}
 	roIn := o.RoutingOnlyIn
 	if roIn == 0 {
